@@ -988,6 +988,30 @@ def _direct_targets(fn, body, stores, bound, call, target):
   return dict(zip(locs, tnames))
 
 
+def _const_truth(t):
+  """truth value of a test built from constants only, else None"""
+  if isinstance(t, ast.Constant):
+    return bool(t.value)
+  if isinstance(t, ast.UnaryOp) and isinstance(t.op, ast.Not):
+    v = _const_truth(t.operand)
+    return None if v is None else (not v)
+  if isinstance(t, ast.BoolOp):
+    vs = [_const_truth(v) for v in t.values]
+    if isinstance(t.op, ast.And):
+      if any(v is False for v in vs):
+        return False
+      return True if all(v is True for v in vs) else None
+    if any(v is True for v in vs):
+      return True
+    return False if all(v is False for v in vs) else None
+  if isinstance(t, ast.Compare) and len(t.ops) == 1 and isinstance(
+      t.ops[0], (ast.Is, ast.IsNot)) and isinstance(t.left, ast.Constant) and isinstance(
+          t.comparators[0], ast.Constant) and t.comparators[0].value is None:
+    r = t.left.value is None
+    return r if isinstance(t.ops[0], ast.Is) else (not r)
+  return None
+
+
 def _fold_constant_ifs(stmts):
   """`if True: A else: B` -> A  (after a constant argument was substituted)"""
   out = []
@@ -996,8 +1020,8 @@ def _fold_constant_ifs(stmts):
       b = getattr(s, f, None)
       if isinstance(b, list) and b and isinstance(b[0], ast.stmt):
         setattr(s, f, _fold_constant_ifs(b) or ([ast.Pass()] if f == 'body' else []))
-    if isinstance(s, ast.If) and isinstance(s.test, ast.Constant):
-      out.extend(s.body if s.test.value else s.orelse)
+    if isinstance(s, ast.If) and _const_truth(s.test) is not None:
+      out.extend(s.body if _const_truth(s.test) else s.orelse)
     else:
       out.append(s)
   return out
